@@ -51,6 +51,11 @@ def call(a, b, dim, p, how, brute):
     try:
         with core.quiet():
             t1, t2 = mk(a, dim), mk(b, dim)
+            # history (every third call): track1 is itself the result of an earlier matching (with a reversed copy of
+            # track2): it already carries the 'pair', 'diff' ... features the new matching has to overwrite
+            if (len(a) + 2 * len(b) + dim + (0 if p == PINF else p)) % 3 == 0 and how != "compare":
+                t1 = cmp.match(t1, mk(list(reversed(b)) + [b[0]], dim), mode=cmp.MODE_MATCHING_DTW, p=1, dim=dim, verbose=False)
+                e["hist"] = "track1 is the result of an earlier matching"
             if how == "compare":
                 e["ev"] = "score"
                 s = cmp.compare(t1, t2, mode=cmp.MODE_COMPARISON_FRECHET, dim=dim, verbose=False)
